@@ -1,12 +1,77 @@
 (* C20 — the bundled IdP server and its store are safe under concurrent requests *)
 From Saml Require Import Base Concurrency ConcurrencyProofs.
 
+(* If the program regenerated from samlidp/*.go and identity_provider.go passes
+   the discipline check (the obligation samlidp_discipline_ok in
+   gen/SamlidpLocks.v, re-proved by vm_compute on every run), then for every
+   number of threads, every sequence of entry-point invocations (handlers,
+   store methods) assigned to each thread and every schedule, under
+   sync.RWMutex semantics with writer preference: no reachable state has two
+   threads at conflicting accesses to MemoryStore.data or
+   Server.serviceProviders (no data race), and in every reachable state with an
+   unfinished request some thread can take a step (no deadlock: under a fair
+   scheduler every request completes). *)
+Theorem discipline_sound :
+  forall p eps, discipline_ok p eps = true ->
+  forall (threads : list (list fname)) codes,
+    (forall invs f, In invs threads -> In f invs -> In f eps) ->
+    expand_threads p threads = Some codes ->
+    forall schedule, race_free (run (init codes) schedule) /\ deadlock_free (run (init codes) schedule).
+Proof. exact discipline_sound_l. Qed.
+Print Assumptions discipline_sound.
+
+(* In every reachable state a thread standing at a read of a guarded location
+   holds its mutex, at a write holds it exclusively, and an exclusive holder is
+   the only holder: conflicting critical sections of the store never overlap,
+   so each Get/Put/Delete/List takes effect atomically inside its critical
+   section (List sees one snapshot because no writer can step while a reader
+   holds the mutex).  Full linearizability against the map specification
+   [sm_apply] (forward simulation with a ghost map) is NOT proved here; it is
+   checked on recorded concurrent histories by the harness (Wing-Gong search). *)
+Theorem store_linearizable_partial :
+  forall p eps, discipline_ok p eps = true ->
+  forall threads codes,
+    (forall invs f, In invs threads -> In f invs -> In f eps) ->
+    expand_threads p threads = Some codes ->
+    forall schedule, let st := run (init codes) schedule in
+      (forall t l, next_act st t = Some (Rd l) -> hget (held_of st t) (guard l) <> None) /\
+      (forall t l, next_act st t = Some (Wr l) -> hget (held_of st t) (guard l) = Some true) /\
+      (forall m t1 t2, hget (held_of st t1) m = Some true -> t1 <> t2 -> hget (held_of st t2) m = None).
+Proof. exact critical_sections_exclusive_l. Qed.
+Print Assumptions store_linearizable_partial.
+
 (* The pinned tree's defect (re-introduced by seeded/revert-F12), exhibited in
    the semantics: HandleIDPInitiated holds idpConfigMu shared and its callee
    GetServiceProvider takes it shared again; with HandlePutService waiting for
-   the write lock in between, no thread can step. *)
+   the write lock in between, no thread can step.  The checker rejects that
+   program and accepts the repaired one (non-vacuity of discipline_sound). *)
 Theorem reentrant_rlock_deadlocks :
-  exists codes, expand_threads reentrant_program reentrant_threads = Some codes /\
-                stuckb (run (init codes) reentrant_witness) = true.
-Proof. exact reentrant_rlock_deadlocks_l. Qed.
+  exists codes schedule, expand_threads reentrant_program reentrant_threads = Some codes /\
+                         ~ deadlock_free (run (init codes) schedule).
+Proof. exact reentrant_not_deadlock_free. Qed.
 Print Assumptions reentrant_rlock_deadlocks.
+
+Theorem reentrant_rejected_fixed_accepted :
+  discipline_ok reentrant_program ["Server.HandleIDPInitiated"; "Server.HandlePutService"] = false /\
+  discipline_ok fixed_program ["Server.HandleIDPInitiated"; "Server.HandlePutService"; "Server.GetServiceProvider"] = true.
+Proof. split; [exact reentrant_program_rejected|exact fixed_program_accepted]. Qed.
+Print Assumptions reentrant_rejected_fixed_accepted.
+
+(* the other two shapes the checker exists for: a read outside the lock races,
+   and a lock-order inversion deadlocks, in the semantics; both are rejected *)
+Theorem unlocked_read_rejected_and_races :
+  discipline_ok [("MemoryStore.List", [Rd Data]); ("MemoryStore.Put", [Acq Mu true; Rd Data; Wr Data; Rel Mu true])]
+                ["MemoryStore.List"; "MemoryStore.Put"] = false /\
+  exists codes sched t1 t2 l,
+    expand_threads [("MemoryStore.List", [Rd Data]); ("MemoryStore.Put", [Acq Mu true; Rd Data; Wr Data; Rel Mu true])]
+                   [["MemoryStore.Put"]; ["MemoryStore.List"]] = Some codes /\
+    race_at (run (init codes) sched) t1 t2 l.
+Proof. split; [exact unlocked_read_rejected|exact unlocked_read_races]. Qed.
+Print Assumptions unlocked_read_rejected_and_races.
+
+Theorem lock_order_inversion_rejected_and_deadlocks :
+  discipline_ok inversion_program ["A"; "B"] = false /\
+  exists codes, expand_threads inversion_program [["A"]; ["B"]] = Some codes /\
+                stuckb (run (init codes) [0%nat; 1%nat; 0%nat; 1%nat]) = true.
+Proof. split; [exact inversion_rejected|exact inversion_deadlocks]. Qed.
+Print Assumptions lock_order_inversion_rejected_and_deadlocks.
